@@ -37,8 +37,10 @@ pub(super) fn indent_func_name(node: FuncCall<'_>) -> Option<&str> {
         .map(|ident| ident.as_str())
 }
 
+/// The name of the callee as written, without blanks (`table .header` is `table.header`).
 pub(super) fn func_name(node: FuncCall<'_>) -> EcoString {
-    node.callee().to_untyped().clone().into_text()
+    let text = node.callee().to_untyped().clone().into_text();
+    text.chars().filter(|c| !c.is_whitespace()).collect()
 }
 
 /// Like `f()`, `f(x, y)`, not `f[]`
